@@ -785,6 +785,9 @@ def run(ctx):
     # ---- C2S
     if not only or 'C2S' in only:
         c2s(ctx)
+    # nested FROM (subquery) / wildcard statements over the FULL expression and SELECT semantics (BQLSelect.Run)
+    from harness import selectcheck
+    selectcheck.record_and_validate(ctx, 'nested', ctx.pick(500, 8000), 16)
     ctx.exhaustive = False
 
 
